@@ -25,9 +25,9 @@
   vacuous and document what the repairs repaired. §5 needs a hypothesis — modules with one file
   leaf name have one symbol outcome — and `stats_order_dependent` proves that without it the
   report DOES depend on the completion order: that is the genuine residual defect F16
-  (`known_findings.d/C13.json`), reproduced on the real code by engine `det`. §6 likewise needs
-  "no module is listed under two certificates"; `cert_order_dependent` is the second residual
-  defect (found by this check): a dual-signed module's `cert_subject` depends on the hash seed.
+  (`known_findings.d/C13.json`), reproduced on the real code by engine `det`. §6 was a second
+  defect found by this check (a dual-signed module's `cert_subject` depended on the hash seed,
+  `cert_unsorted_order_dependent`), repaired by fix 2943e9c; `cert_order_free` is unconditional.
 
   The models are the ones the compiled driver executes; engine `det` compares them on every run
   with the real renderer / walker / processor, fed with the REAL iteration orders of the real
@@ -442,10 +442,20 @@ example :
     statsReport mods [0, 1] [0, 1] = [(false, true, false), (false, true, true)] := by
   decide
 
-/-! ## 6. "across repeated runs": module certificates from the evil JSON (NEW finding) -/
+/-! ## 6. "across repeated runs": module certificates from the evil JSON
+      (defect found by this check, repaired by fix 2943e9c) -/
 
-theorem certMap_eq (iter : CertInfo) : certMap iter = (certPairs iter).reverse := by
-  unfold certMap
+/-- **C13.6** `cert_order_free`: the certificate shown for every module is the same for every
+    iteration order of the `ModuleSignatureInfo` map — with NO hypothesis about modules listed
+    under several certificates: the certificates are visited in name order, the last NAME wins. -/
+theorem cert_order_free (iter iter' : CertInfo) (shown : List (List Nat))
+    (nd : (iter.map (·.1)).Nodup) (hp : iter.Perm iter') :
+    certReport iter' shown = certReport iter shown := by
+  unfold certReport certMap
+  rw [isort_keyLe_perm nd hp]
+
+theorem certMapUnsorted_eq (entries : CertInfo) : certMapUnsorted entries = (certPairs entries).reverse := by
+  unfold certMapUnsorted
   have : ∀ (l : List (List Nat × List Nat)) init, l.foldl (fun m kv => kv :: m) init = l.reverse ++ init := by
     intro l
     induction l with
@@ -479,54 +489,60 @@ theorem certLookup_eq_some {m : List (List Nat × List Nat)} {name c : List Nat}
     rw [← h, ← hp]
     exact hm
 
-/-- **C13.6** `cert_order_free`: if no module is listed under two different certificates, the
-    certificate shown for every module is the same for every iteration order of the
-    `ModuleSignatureInfo` map. -/
-theorem cert_order_free (iter iter' : CertInfo) (shown : List (List Nat))
+/-- **C13.6b** the loop BEFORE the fix was order-free only if no module is listed under two
+    different certificates … -/
+theorem cert_unsorted_order_free_of_unique (iter iter' : CertInfo) (shown : List (List Nat))
     (huniq : ∀ e, e ∈ certPairs iter → ∀ e', e' ∈ certPairs iter → e.1 = e'.1 → e.2 = e'.2)
     (hp : iter.Perm iter') :
-    certReport iter' shown = certReport iter shown := by
-  unfold certReport
+    certReportUnsorted iter' shown = certReportUnsorted iter shown := by
+  unfold certReportUnsorted
   apply List.map_congr_left
   intro name _
-  cases h : certLookup (certMap iter) name with
+  cases h : certLookup (certMapUnsorted iter) name with
   | none =>
     rw [certLookup_eq_none] at h ⊢
     intro e he
-    rw [certMap_eq, List.mem_reverse] at he
+    rw [certMapUnsorted_eq, List.mem_reverse] at he
     apply h e
-    rw [certMap_eq, List.mem_reverse]
+    rw [certMapUnsorted_eq, List.mem_reverse]
     exact (mem_certPairs_perm hp e).2 he
   | some c =>
     have hk := certLookup_eq_some h
-    rw [certMap_eq, List.mem_reverse] at hk
-    cases h' : certLookup (certMap iter') name with
+    rw [certMapUnsorted_eq, List.mem_reverse] at hk
+    cases h' : certLookup (certMapUnsorted iter') name with
     | none =>
       rw [certLookup_eq_none] at h'
       refine absurd rfl (h' (name, c) ?_)
-      rw [certMap_eq, List.mem_reverse]
+      rw [certMapUnsorted_eq, List.mem_reverse]
       exact (mem_certPairs_perm hp _).1 hk
     | some c' =>
       have hk' := certLookup_eq_some h'
-      rw [certMap_eq, List.mem_reverse] at hk'
+      rw [certMapUnsorted_eq, List.mem_reverse] at hk'
       have := huniq _ hk _ ((mem_certPairs_perm hp _).2 hk') rfl
       simp only at this
       rw [this]
 
-/-- **NEW finding** `cert_order_dependent`: a module listed under two certificates (a dual-signed
-    binary) gets whichever certificate the map iterates LAST — the report depends on the hash seed. -/
-theorem cert_order_dependent :
+/-- … and `cert_unsorted_order_dependent`: a module listed under two certificates (a dual-signed
+    binary) got whichever certificate the map iterated LAST — the report depended on the hash
+    seed. This is what fix 2943e9c repaired. -/
+theorem cert_unsorted_order_dependent :
     ∃ (iter iter' : CertInfo) (shown : List (List Nat)), (iter.map (·.1)).Nodup ∧ iter.Perm iter' ∧
-      certReport iter' shown ≠ certReport iter shown :=
+      certReportUnsorted iter' shown ≠ certReportUnsorted iter shown :=
   ⟨[([65], [nXdll]), ([66], [nXdll, nYdll])], [([66], [nXdll, nYdll]), ([65], [nXdll])], [nXdll, nYdll],
    by decide, List.Perm.swap _ _ _, by decide⟩
 
-/-- non-vacuity of `cert_order_free`: two certificates, disjoint module lists, an unknown module. -/
+/-- non-vacuity: on that witness the current code shows certificate `B` (the later name) for the
+    dual-signed module in both iteration orders; an unknown module has none. -/
+example :
+    certReport [([65], [nXdll]), ([66], [nXdll, nYdll])] [nXdll, nYdll, nBogus] = [some [66], some [66], none] ∧
+    certReport [([66], [nXdll, nYdll]), ([65], [nXdll])] [nXdll, nYdll, nBogus] = [some [66], some [66], none] := by
+  decide
+
+/-- non-vacuity of `cert_unsorted_order_free_of_unique`'s hypothesis. -/
 example :
     let iter : CertInfo := [([65], [nXdll]), ([66], [nYdll])]
     (∀ e, e ∈ certPairs iter → ∀ e', e' ∈ certPairs iter → e.1 = e'.1 → e.2 = e'.2) ∧
-    certReport iter [nXdll, nYdll, nBogus] = [some [65], some [66], none] ∧
-    certReport [([66], [nYdll]), ([65], [nXdll])] [nXdll, nYdll, nBogus] = [some [65], some [66], none] := by
+    certReportUnsorted iter [nXdll, nYdll, nBogus] = [some [65], some [66], none] := by
   decide
 
 end MdModel.Det
